@@ -2,6 +2,7 @@ package kernel
 
 import (
 	"fmt"
+	"github.com/MixinNetwork/mixin/kernel/internal/clock"
 	"math/big"
 	"path/filepath"
 	"testing"
@@ -322,8 +323,18 @@ func vC21Enumerate(t *testing.T, r *verifkit.Run, net *verifgen.Net, scratch, la
 			// restart on the plain store
 			var f2 *verifFeed
 			var rerr error
+			// every other restart happens while the local clock is still a little behind the timestamp of the interrupted
+			// snapshot (its proposer's clock ran ahead): what is durable must be found all the same
+			behind := (k+len(variants))%2 == 0 && inject
+			if behind {
+				clock.MockDiff(-time.Since(time.Unix(0, int64(op.snap.Timestamp))) - 25*time.Second)
+				r.Count("restarts_with_the_local_clock_behind_the_interrupted_snapshot", 1)
+			}
 			if panicked, pv, _ := verifkit.Guard(func() { f2, rerr = verifFeedOn(t, net, rng, run, nil) }); panicked {
 				rerr = fmt.Errorf("setup panics: %v", pv)
+			}
+			if behind {
+				clock.Reset()
 			}
 			err = rerr
 			if err != nil {
